@@ -20,8 +20,8 @@ RULE = ("(a) form: allocate_code(n), n=0..8, called at once / after the welcome 
         "the three code calls. Non-trivial/distinct = distinct (sub-workload, input) tuples.")
 ASSUMPTIONS = ["os.urandom itself is uniform (quality of the OS generator is out of scope)",
                "unicode decimal digits count as numeric (client and server both use \\d); only U+0020 is a space"]
-FLOORS = {"quick": {"nameplate_prefixes_ending_in_a_hyphen": 12, "entropy_draws_checked": 9000, "form_codes": 60, "rejections": 600, "completions_checked": 3000, "code_call_sequences": 100, "out_of_order_helper_calls": 40, "codes_entered_by_completion": 100, "typed_words_rejections": 60, "nameplate_edits_after_commit": 10},
-          "thorough": {"nameplate_prefixes_ending_in_a_hyphen": 200, "entropy_draws_checked": 9000, "form_codes": 1500, "rejections": 60000, "completions_checked": 100000, "code_call_sequences": 3000, "out_of_order_helper_calls": 1500, "codes_entered_by_completion": 3000, "typed_words_rejections": 2000, "nameplate_edits_after_commit": 300}}
+FLOORS = {"quick": {"refused_tabs_on_a_malformed_nameplate": 10, "nameplate_prefixes_ending_in_a_hyphen": 12, "entropy_draws_checked": 9000, "form_codes": 60, "rejections": 600, "completions_checked": 3000, "code_call_sequences": 100, "out_of_order_helper_calls": 40, "codes_entered_by_completion": 100, "typed_words_rejections": 60, "nameplate_edits_after_commit": 10},
+          "thorough": {"refused_tabs_on_a_malformed_nameplate": 100, "nameplate_prefixes_ending_in_a_hyphen": 200, "entropy_draws_checked": 9000, "form_codes": 1500, "rejections": 60000, "completions_checked": 100000, "code_call_sequences": 3000, "out_of_order_helper_calls": 1500, "codes_entered_by_completion": 3000, "typed_words_rejections": 2000, "nameplate_edits_after_commit": 300}}
 NAMEPLATES = ["1", "7", "42", "999", "1000", "123456789", "007", "0", "00", "٣", "４２"]
 
 
@@ -400,6 +400,29 @@ def run_entry(spec):
             out_of_order("after-nameplate")        # before the wordlist is known
         sch.run(300, until=lambda: helper._input._wordlist is not None)
         out_of_order("after-nameplate")
+    malformed_tabs = 0
+    if use_inputter and rng.random() < 0.7:
+        # the user's first attempt at the nameplate is a typo (a letter among the digits); TAB after the hyphen is refused,
+        # the user corrects the line and goes on: the typo must not have been taken for a commitment
+        bad = rng.choice([np_ + "x", "x" + np_, np_ + "\u00a0", "4x", "l" + np_[1:]])
+        if not bad.isdigit():
+            malformed_tabs = 1
+            try:
+                ci._commit_and_build_completions(bad + "-")
+                wit["malformed_nameplate_tab"] = [bad, "accepted"]
+            except Exception as e:
+                wit["malformed_nameplate_tab"] = [bad, type(e).__name__]
+            _raw = ci._commit_and_build_completions
+
+            def _checked(text):
+                try:
+                    return _raw(text)
+                except Exception as e:
+                    if not any(v["key"].startswith("C19/entry/corrected-nameplate-refused") for v in viol):
+                        viol.append({"key": "C19/entry/corrected-nameplate-refused/" + type(e).__name__,
+                                     "msg": "after a refused TAB on the malformed nameplate %r the corrected line %r is answered with %s" % (bad, text, type(e).__name__), "witness": wit})
+                    return []
+            ci._commit_and_build_completions = _checked
     # word phase
     chosen = None
     for _ in range(rng.randint(2, 8)):
@@ -464,6 +487,8 @@ def run_entry(spec):
                 chosen = np_ + "-" + line
     # finish with an offered completion (or a plain valid code) and check the code event
     final = chosen or (np_ + "-" + rng.choice(odd_l) + "-" + rng.choice(even_l))
+    if malformed_tabs:
+        ci._commit_and_build_completions = _raw          # (the edits below are meant to be refused)
     rollbacks = 0
     if use_inputter and getattr(ci, "_committed_nameplate", None) == np_ and rng.random() < 0.6:
         # the user goes back and edits the nameplate after a TAB has already committed (claimed) one: a digit added
@@ -515,7 +540,7 @@ def run_entry(spec):
         o.close()
     sch.drain(60.0, 6000, until=lambda: all(o.closed for o in others + [b]))
     world.finish()
-    return {"violations": viol, "nontrivial": ["entry", spec["seed"], final, use_inputter], "counters": {"completions_checked": checked, "out_of_order_helper_calls": order_calls[0], "nameplate_list_shrunk": shrunk, "codes_entered_by_completion": tabbed, "nameplate_edits_after_commit": rollbacks, "nameplate_prefixes_ending_in_a_hyphen": hyphen_prefixes[0]},
+    return {"violations": viol, "nontrivial": ["entry", spec["seed"], final, use_inputter], "counters": {"completions_checked": checked, "out_of_order_helper_calls": order_calls[0], "nameplate_list_shrunk": shrunk, "codes_entered_by_completion": tabbed, "nameplate_edits_after_commit": rollbacks, "nameplate_prefixes_ending_in_a_hyphen": hyphen_prefixes[0], "refused_tabs_on_a_malformed_nameplate": malformed_tabs},
             "sample": {"kind": "entry", "server_nameplates": sorted(server_nps), "final_code": final, "via": wit["via"], "completions_checked": checked}}
 
 
